@@ -161,6 +161,60 @@ Definition iqr_ok (s' : sample) (xs : list Q) (ps : list (Q * Q)) (W : Q) (wex :
       | _ => false end
   end.
 
+(* ---------- exact order facts on the observed floats (NO tolerance) ----------
+   The property states them outright: a quantile lies between the minimum and the maximum, is
+   non-decreasing in q, and between two EQUAL adjacent order statistics it is that value.  They
+   hold exactly for the float computation x0 + frac*(x1-x0) (0 <= frac < 1, x0 <= x1: every
+   operation is monotone and fl(frac*d) < d), so they are compared without slack. *)
+Definition T_TIEBRACKET := 4096%Z.   (* an interpolated query whose bracket [x0,x1] is a single value *)
+
+(* min <= v <= max for every finite result (q outside [0,1] included: the code clamps) *)
+Definition in_range_b (xs : list Q) (qs : list (Q * Z * xreal)) : bool :=
+  match xs with
+  | [] => true
+  | x :: _ => let lo := Qlmin x xs in let hi := Qlmax x xs in
+              forallb (fun t => match t with (_, _, XFin v) => Qle_bool lo v && Qle_bool v hi | _ => true end) qs
+  end.
+(* q1 <= q2 -> v1 <= v2 over all pairs of queries of the case with finite results *)
+Definition mono_b (qs : list (Q * Z * xreal)) : bool :=
+  forallb (fun a => match a with
+                    | (q1, _, XFin v1) =>
+                        forallb (fun b => match b with
+                                          | (q2, _, XFin v2) => negb (Qle_bool q1 q2) || Qle_bool v1 v2
+                                          | _ => true end) qs
+                    | _ => true end) qs.
+(* unweighted, 0 < q < 1, interpolating position h = k + frac with 1 <= k < n: the result lies in
+   the bracket of the k-th and (k+1)-th order statistics - widened by one order statistic on each
+   side when frac is within 1e-6 of 0 or 1, where the float position may fall in the neighbouring
+   interval (its error is below 4 ulp (n+1)).  Returns (ok, bracket is a single value). *)
+Definition bracket_b (sx : list Q) (q : Q) (obs : xreal) : bool * bool :=
+  match obs with
+  | XFin v =>
+      let n := length sx in
+      let h := quantile_pos third_f n q in
+      let k := Qfloor h in
+      let frac := h - inject_Z k in
+      if Qle_bool q 0 || Qle_bool 1 q || (k <=? 0)%Z || (Z.of_nat n <=? k)%Z then (true, false)
+      else
+        let brk := Qle_bool frac (1 # 1000000) || Qle_bool (999999 # 1000000) frac in
+        let i0 := Z.to_nat (k - 1) in
+        let il := if brk then Nat.pred i0 else i0 in
+        let ih := Nat.min (if brk then i0 + 2 else i0 + 1)%nat (n - 1)%nat in
+        match nth_error sx il, nth_error sx ih with
+        | Some a, Some b => (Qle_bool a v && Qle_bool v b, Qeq_bool a b)
+        | _, _ => (true, false)
+        end
+  | _ => (true, false)
+  end.
+(* None = all hold; Some id = first failing fact (1 range, 2 monotone, 3 bracket); tag *)
+Definition order_check (hasw : bool) (xs sx : list Q) (qs : list (Q * Z * xreal)) : option Z * Z :=
+  let br := if hasw then [] else map (fun t => match t with (q, _, o) => bracket_b sx q o end) qs in
+  let tg := if existsb snd br then T_TIEBRACKET else 0%Z in
+  if negb (in_range_b xs qs) then (Some 1%Z, tg)
+  else if negb (mono_b qs) then (Some 2%Z, tg)
+  else if negb (forallb fst br) then (Some 3%Z, tg)
+  else (None, tg).
+
 (* one case / one step of a history: (code, tag, pos, diag) *)
 Definition check_case (c : c10case) : Z * Z * Z * list Z :=
   match c with
@@ -176,8 +230,11 @@ Definition check_case (c : c10case) : Z * Z * Z * list Z :=
       let base := Z.lor (if hasw then T_WEIGHTED else 0) (if sorted then T_SORTED else 0) in
       match run_qs s s' ps W wex tolu qs 0%Z 0%Z 0%Z with
       | (code, tag, pos, diag) =>
-          let tag' := match qs with [] => 0%Z | _ => Z.lor tag base end in
+          let oc := order_check hasw xs (s_xs s') qs in
+          let tag' := match qs with [] => 0%Z | _ => Z.lor (Z.lor tag base) (snd oc) end in
           if (code =? 2)%Z then (V_MISMATCH, tag', pos, diag)
+          else if match fst oc with Some _ => true | None => false end
+               then (V_MISMATCH, tag', (-4)%Z, match fst oc with Some w => [10%Z; w] | None => [] end)
           else if negb (unm =? 1)%Z then (V_MISMATCH, tag', (-2)%Z, [9%Z])
           else if iqr_ok s' xs ps W wex ist iv then (code, tag', (-1)%Z, [])
           else (V_MISMATCH, tag', (-3)%Z, match iqr s' with RVal e => 1%Z :: qdiag e | RNaN => [0%Z] | RPanic => [2%Z] end)
